@@ -27,6 +27,7 @@ Definition len_pkt (p : pkt) : sx :=
   | PData n d => L [I 3; sxN n; sxNat (List.length d)]
   | POack _ => L [I 6]
   | PError c => L [I 5; sxN c]
+  | PMalformed r => L [I 99; B r]
   end.
 Definition proj_client_packets (l : list tr) : sx :=
   L (flat_map (fun e => match e with
